@@ -200,6 +200,27 @@ for _k, _v in _R10_TEXT.items():
     EXTRA_TEXT[_k] = EXTRA_TEXT.get(_k, '') + _v
 
 
+# rules written in round 11 (DESIGN section 0.11: defects reported by the hunters)
+_R11_TEXT = {
+    "C01": " Also (U1 on public flags): an unbound name in an arm that only a documented flag of a public function reaches is a violation even when no call inside the package takes the arm.",
+    "C03": " Also (DUAL1): in Transformation.apply dual data goes through the inverse-transpose branch, point and auxiliary data do not.",
+    "C05": " Also (RESPLIT1, DEFER1, GENACC1): a returned re.split token list is filtered for empty tokens; a method forwarding its parameter to one that means 'None = this object's setting' declares it with default None; loops over generator names read the generator table, not the word evaluator.",
+    "C09": " Also (ITER1, MD1, HID1): a parameter consumed by two passes is materialised first; the constructor stores a copy of its start-state list; both constructor routes register edge targets as vertices.",
+    "C10": " Also (MD1, HID1).",
+    "C11": " Also (DUAL1, HOMDIV1): the denominators of Segment._compute_aux_data have a single multidegree in the two row representatives.",
+    "C12": " Also (VIEWAUG1): no value-returning helper of utils/core.py updates a view of its parameter in place (it would compute in the caller's integer dtype).",
+    "C13": " Also (ACOS1): the argument of arccos in TangentVector.angle is clamped into [-1, 1] on both sides.",
+    "C14": " Also (HOMDIV1): a small degree calculus over the Gram entries shows every denominator of the ideal-endpoint computation homogeneous in each representative (an inhomogeneous one vanishes for some lifts of every segment).",
+    "C16": " Also (NEG0): no `x[-k:]` with a computed k that may be 0.",
+    "C17": " Also (FWD1): every closure returned by lie.hom._wrap_hom forwards *args and **kwargs to the wrapped map.",
+    "C18": " Also (NEG0, VIEWAUG1).",
+    "C19": " Also (CURAX1, HOMDIV1): every artist-creating call of a draw_* method goes through self.ax, never pyplot's current axes.",
+    "C20": " Also (U1 on public flags).",
+}
+for _k, _v in _R11_TEXT.items():
+    EXTRA_TEXT[_k] = EXTRA_TEXT.get(_k, '') + _v
+
+
 def _engine_from_evidence(pid, default):
     path = os.path.join(HERE, "evidence", f"{pid}.json")
     try:
